@@ -19,12 +19,17 @@ use crate::read_path_engine_view::{
     build_snapshot_from_published, load_properties_and_stats_roots,
 };
 use crate::snapshot::{L0Run, RelTypeId, Snapshot};
+#[cfg(nervusdb_verif)]
+use crate::verif::sync::{Mutex, RwLock};
 use crate::wal::{CommittedTx, SegmentPointer, Wal, WalRecord};
 use crate::{Error, Result};
 use nervusdb_api::{GraphSnapshot, GraphStore};
 use std::collections::BTreeMap;
 use std::path::{Path, PathBuf};
+#[cfg(nervusdb_verif)]
+use std::sync::Arc;
 use std::sync::atomic::{AtomicU64, Ordering};
+#[cfg(not(nervusdb_verif))]
 use std::sync::{Arc, Mutex, RwLock};
 
 type NativeHnsw = HnswIndex<PersistentVectorStorage, PersistentGraphStorage>;
@@ -187,9 +192,17 @@ impl GraphEngine {
 
     pub fn begin_read(&self) -> Snapshot {
         let runs = self.published_runs.read().unwrap().clone();
+        #[cfg(nervusdb_verif)]
+        crate::verif::sched("read.after_runs");
         let segments = self.published_segments.read().unwrap().clone();
+        #[cfg(nervusdb_verif)]
+        crate::verif::sched("read.after_segments");
         let labels = self.published_labels.read().unwrap().clone();
+        #[cfg(nervusdb_verif)]
+        crate::verif::sched("read.after_labels");
         let node_labels = self.published_node_labels.read().unwrap().clone();
+        #[cfg(nervusdb_verif)]
+        crate::verif::sched("read.after_node_labels");
         let (properties_root, stats_root) =
             load_properties_and_stats_roots(&self.properties_root, &self.stats_root);
         build_snapshot_from_published(
@@ -258,6 +271,8 @@ impl GraphEngine {
             wal.append(&WalRecord::CommitTx { txid })?;
             wal.fsync()?;
         }
+        #[cfg(nervusdb_verif)]
+        crate::verif::sched("label.after_wal");
 
         // Update Published Snapshot
         let snapshot = interner.snapshot();
@@ -339,6 +354,8 @@ impl GraphEngine {
             seg.persist(&mut pager)?;
             pager.sync()?;
         }
+        #[cfg(nervusdb_verif)]
+        crate::verif::sched("compact.after_segment");
 
         let up_to_txid = runs.iter().map(|r| r.txid()).max().unwrap_or(0);
         let epoch = self.manifest_epoch.load(Ordering::Relaxed) + 1;
@@ -410,6 +427,8 @@ impl GraphEngine {
 
             current_root = tree.root().as_u64();
         }
+        #[cfg(nervusdb_verif)]
+        crate::verif::sched("compact.after_sink");
 
         // Statistics Collection - read directly from IdMap for accuracy
         let mut stats = crate::stats::GraphStatistics::default();
@@ -439,6 +458,8 @@ impl GraphEngine {
             let encoded_stats = stats.encode();
             stats_root = crate::blob_store::BlobStore::write(&mut pager, &encoded_stats)?;
         }
+        #[cfg(nervusdb_verif)]
+        crate::verif::sched("compact.after_stats");
 
         let pointers: Vec<SegmentPointer> = new_segments
             .iter()
@@ -468,19 +489,27 @@ impl GraphEngine {
             wal.append(&WalRecord::CommitTx { txid: system_txid })?;
             wal.fsync()?;
         }
+        #[cfg(nervusdb_verif)]
+        crate::verif::sched("compact.after_manifest");
 
         // 4. Update memory state
         self.checkpoint_txid.store(up_to_txid, Ordering::SeqCst);
         self.properties_root.store(current_root, Ordering::SeqCst);
         self.stats_root.store(stats_root, Ordering::SeqCst);
+        #[cfg(nervusdb_verif)]
+        crate::verif::sched("compact.after_roots");
         {
             let mut cur_runs = self.published_runs.write().unwrap();
             *cur_runs = Arc::new(Vec::new());
         }
+        #[cfg(nervusdb_verif)]
+        crate::verif::sched("compact.between_clear_install");
         {
             let mut cur_segs = self.published_segments.write().unwrap();
             *cur_segs = new_segments;
         }
+        #[cfg(nervusdb_verif)]
+        crate::verif::sched("compact.after_install");
 
         self.manifest_epoch.store(epoch, Ordering::Relaxed);
         if !has_properties {
@@ -658,7 +687,10 @@ fn build_segment_from_runs(seg_id: SegmentId, runs: &Arc<Vec<Arc<L0Run>>>) -> Cs
 
 pub struct WriteTxn<'a> {
     engine: &'a GraphEngine,
+    #[cfg(not(nervusdb_verif))]
     _guard: std::sync::MutexGuard<'a, ()>,
+    #[cfg(nervusdb_verif)]
+    _guard: crate::verif::sync::MutexGuard<'a, ()>,
     txid: u64,
     created_nodes: Vec<(ExternalId, LabelId, InternalNodeId)>,
     pending_label_additions: Vec<(InternalNodeId, LabelId)>,
@@ -1063,6 +1095,8 @@ impl<'a> WriteTxn<'a> {
             wal.append(&WalRecord::CommitTx { txid: self.txid })?;
             wal.fsync()?;
         }
+        #[cfg(nervusdb_verif)]
+        crate::verif::sched("commit.after_wal");
 
         let has_new_nodes = !self.created_nodes.is_empty();
         let has_label_additions = !self.pending_label_additions.is_empty();
@@ -1082,15 +1116,21 @@ impl<'a> WriteTxn<'a> {
                 idmap.apply_remove_label(&mut pager, node, label_id)?;
             }
         }
+        #[cfg(nervusdb_verif)]
+        crate::verif::sched("commit.after_idmap");
 
         let has_label_mutations = has_new_nodes || has_label_additions || has_label_removals;
         if has_label_mutations {
             self.engine.update_published_node_labels();
         }
+        #[cfg(nervusdb_verif)]
+        crate::verif::sched("commit.after_node_labels");
 
         if !run.is_empty() {
             self.engine.publish_run(Arc::new(run));
         }
+        #[cfg(nervusdb_verif)]
+        crate::verif::sched("commit.after_publish");
 
         self.engine.next_txid.fetch_add(1, Ordering::Relaxed);
 
